@@ -1,7 +1,7 @@
 CONSTANTS
   Mode = "c15"
   NCols = 3
-  Window = TRUE
+  Window = FALSE
   Edge = 2
   NRows = 2
   NT = 1
@@ -9,14 +9,14 @@ CONSTANTS
   Exist = TRUE
   Depth = 5
   MaxD = 3
-  MaxArity = 2
-  MaxStack = 2
+  MaxArity = 3
+  MaxStack = 3
   MaxBatch = 1
   MaxSeq = 1
   InitAll = 2
   Warm = 0
   ClassSet = {"push", "apply", "unary"}
-  LeafKinds = {"row"}
+  LeafKinds = {"row", "empty"}
 INIT Init
 NEXT Next
 INVARIANT Emit
